@@ -376,6 +376,18 @@ pub fn native(cfg: &cgv_core::fw::RunCfg, extra: &mut cgv_core::fw::Extra) {
                 }
             }
         }
+        // 2-D accuracy at every separation: r(a) = b to 1e-13 (a stable formula is good to ~1e-16)
+        {
+            let a2 = cgmath::Vector2::new(a.x, a.y).normalize();
+            let th = 10f64.powf(rng.uniform(-9.0, 0.49)) * if rng.bool() { 1.0 } else { -1.0 };
+            let th = if rng.chance(1, 4) { th.signum() * (std::f64::consts::PI - th.abs().min(3.0)) } else { th };
+            let b2 = cgmath::Vector2::new(th.cos() * a2.x - th.sin() * a2.y, th.sin() * a2.x + th.cos() * a2.y);
+            let r: Basis2<f64> = Rotation::between_vectors(a2, b2);
+            let e = (r.rotate_vector(a2) - b2).magnitude();
+            if !(e <= 1e-13) {
+                bad = Some(format!("Basis2::between_vectors: |r(a) - b| = {e:e} (tolerance 1e-13) for b = Rot({th:e}) a"));
+            }
+        }
         seen.insert((a.x.to_bits(), kind));
         if let Some(msg) = bad {
             extra.violations.push(("native_zone".into(), msg, json!({"a": [a.x, a.y, a.z], "n": [nrm.x, nrm.y, nrm.z], "kind": kind, "index": i})));
